@@ -98,6 +98,13 @@ def gen_ws(seed, pid, bias):
     knobs = {}
     if rng.random() < 0.3:
         knobs['pipe_capacity'] = rng.choice([64, 512, 4096])
+    if rng.random() < bias.get('p_defaults_split', 0.25):
+        knobs['defaults_split'] = rng.randint(0, 99)
+    if rng.random() < bias.get('p_color', 0.08):
+        opt['color'] = True
+    if rng.random() < bias.get('p_v4', 0.05):
+        opt['v'] = 4
+        opt['gc_after_test'] = True
     return {'property': pid, 'seed': seed, 'world': world, 'plan': plan, 'opt': opt,
             'sched': {'prng': seed}, 'knobs': knobs}
 
